@@ -226,6 +226,56 @@ def run(ctx):
     # 5. client side
     for v in (2.0, 1.0):
         client_side(ctx, rng, v)
+    # 6. positional arguments that reach the dispatcher as a TUPLE (the validation accepts lists and tuples alike):
+    #    a 'builtins.tuple' descriptor as "params", or a request dictionary handed to _unmarshaled_dispatch in-process.
+    #    Metamorphic oracle: same classification, same invocations as the same arguments given as a list.
+    _tuple_params(ctx, rng, cfgs, fxs)
+
+
+def _tuple_params(ctx, rng, cfgs, fxs):
+    def code_of(parsed):
+        if isinstance(parsed, dict) and isinstance(parsed.get("error"), dict):
+            return parsed["error"].get("code")
+        return "result" if isinstance(parsed, dict) and "result" in parsed else "other"
+    n = 0
+    for cfg in cfgs:
+        fx = fxs[cfg]
+        for name in dm.METHOD_NAMES:
+            for args in ([], [1], [1, 2], [1, 2, 3], ["a", None], [[1, 2]], [{"k": 1}]):
+                for two in (True, False):
+                    n += 1
+                    if not ctx.mine(n):
+                        continue
+                    e = {"method": name, "id": 7, "params": args}
+                    if two:
+                        e["jsonrpc"] = "2.0"
+                    ref = dm.drive(fx, json.dumps(e))
+                    if ref.raised is not None:
+                        continue
+                    want = (code_of(ref.parsed), dm.inv_repr(ref.invocations))
+                    for route in ("descriptor", "in-process"):
+                        if route == "descriptor":
+                            obs = dm.drive(fx, json.dumps(dict(e, params={"__jsonclass__": ["builtins.tuple", [args]]})))
+                            raised, parsed, invs = obs.raised, obs.parsed, obs.invocations
+                        else:
+                            mark = fx.log.mark()
+                            raised = parsed = None
+                            try:
+                                parsed = fx.dispatcher._unmarshaled_dispatch(dict(e, params=tuple(args)))
+                            except BaseException as ex:  # noqa
+                                raised = ex
+                            invs = fx.log.since(mark)
+                        case = {"config": list(cfg), "bclass": "tuple-params", "route": route, "request": e}
+                        ctx.case((cfg, "tuple-params", route, json.dumps(e)), nontrivial=True)
+                        ctx.cell("v%s" % cfg[0], cfg[1], "tuple-params")
+                        ctx.count("judged:tuple-params-vs-list-params")
+                        if raised is not None:
+                            ctx.violate("tuple-params:raised-%s" % type(raised).__name__, case, {"raised": raised})
+                            continue
+                        got = (code_of(parsed), dm.inv_repr(invs))
+                        if got != want:
+                            ctx.violate("code:positional-arguments-given-as-a-tuple:%s-instead-of-%s" % (got[0], want[0]),
+                                        case, {"with_tuple": got, "with_list": want, "reply": parsed})
 
 
 def _translator_part(ctx, rng, cfgs, fxs, bodies):
